@@ -30,6 +30,17 @@ class Problem:
         return float(np.max(np.abs(np.clip(x - g, self.lb, self.ub) - x)))
 
 
+def _sc(v):
+    """python float for real values, complex passes through (complex-step differentiation)"""
+    return np.complex128(v) if np.iscomplexobj(v) else float(v)
+
+
+def _softplus(z):
+    if np.iscomplexobj(z):
+        return np.log1p(np.exp(-np.abs(z.real)) * np.exp(1j * np.where(z.real > 0, -z.imag, z.imag))) + np.where(z.real > 0, z, 0)
+    return np.logaddexp(0.0, z)
+
+
 def _spd(rng: np.random.Generator, n: int, cond: float):
     Q, _ = np.linalg.qr(rng.standard_normal((n, n)))
     if n == 1:
@@ -54,35 +65,35 @@ def make_objective(family: str, n: int, rng: np.random.Generator):
         b = rng.standard_normal(n) * 3
         a = rng.uniform(-1, 1, n)
         if family in ("qp", "badscale"):
-            def fun(x): return float(0.5 * x @ (A @ x) - b @ x)
+            def fun(x): return _sc(0.5 * x @ (A @ x) - b @ x)
             def grad(x): return A @ x - b
         elif family == "qp_quartic":
             c = 10 ** rng.uniform(-2, 0)
-            def fun(x): return float(0.5 * x @ (A @ x) - b @ x + c * np.sum((x - a) ** 4))
+            def fun(x): return _sc(0.5 * x @ (A @ x) - b @ x + c * np.sum((x - a) ** 4))
             def grad(x): return A @ x - b + 4 * c * (x - a) ** 3
             L = None
         else:
-            def fun(x): return float(0.5 * x @ (A @ x) - b @ x + np.sum(np.logaddexp(0.0, x - a)))
+            def fun(x): return _sc(0.5 * x @ (A @ x) - b @ x + np.sum(_softplus(x - a)))
             def grad(x): return A @ x - b + 1.0 / (1.0 + np.exp(-(x - a)))
             L = L + 0.25
         return fun, grad, True, L
     if family == "rosen":
         from lbfgsb.benchmarks import rosenbrock, rosenbrock_grad
-        return (lambda x: float(rosenbrock(x))), rosenbrock_grad, False, None
+        return (lambda x: _sc(rosenbrock(x))), rosenbrock_grad, False, None
     if family == "osc":
         w = rng.uniform(1.0, 4.0)
-        def fun(x): return float(np.sum(x ** 2) + 3.0 * np.sum(np.sin(w * x) ** 2))
+        def fun(x): return _sc(np.sum(x ** 2) + 3.0 * np.sum(np.sin(w * x) ** 2))
         def grad(x): return 2 * x + 3.0 * w * np.sin(2 * w * x)
         return fun, grad, False, None
     if family == "styb":
         from lbfgsb.benchmarks import styblinski_tang, styblinski_tang_grad
-        return (lambda x: float(styblinski_tang(x))), styblinski_tang_grad, False, None
+        return (lambda x: _sc(styblinski_tang(x))), styblinski_tang_grad, False, None
     if family == "bench":
         import lbfgsb.benchmarks as B
         name = ["ackley", "beale", "griewank", "quartic", "rastrigin", "rosenbrock", "sphere",
                 "styblinski_tang"][int(rng.integers(0, 8))]
         f, g = getattr(B, name), getattr(B, name + "_grad")
-        return (lambda x: float(f(x))), (lambda x: np.asarray(g(x), dtype=float)), name in ("sphere", "quartic"), None
+        return (lambda x: _sc(f(x))), (lambda x: np.asarray(g(x), dtype=float)), name in ("sphere", "quartic"), None
     raise ValueError(family)
 
 
@@ -157,3 +168,80 @@ def make_config(seed: int, small_budgets: bool = False) -> Dict[str, Any]:
         cfg["maxiter"] = r.choice([5, 15, 30, 60])
         cfg["maxfun"] = r.choice([40, 200, 15000])
     return cfg
+
+
+# ----------------------------------------------------------------------------- scenarios
+def upd_identity(x, f0, f0_old, grad, X, G):
+    return f0, f0_old, grad, G
+
+
+def make_update(kind: str, seed: int, switch_at: int):
+    """update functions for C13: the objective is  f + w * reg  with reg = 0.5|x|^2; the
+    weight changes once, at call number `switch_at` (0 = the initial call)."""
+    state = {"calls": 0, "w": 0.0}
+    r = random.Random(seed)
+    w_new = r.choice([0.5, 2.0, 10.0])
+    scale = r.choice([0.25, 3.0])
+
+    def upd(x, f0, f0_old, grad, X, G):
+        from collections import deque
+        k = state["calls"]
+        state["calls"] += 1
+        if kind == "identity" or k != switch_at:
+            return f0, f0_old, grad, G
+        if kind == "rescale":
+            return f0 * scale, f0_old * scale, grad * scale, deque([g * scale for g in G])
+        if kind == "reweight":
+            Gn = deque([g + w_new * xx for g, xx in zip(G, X)])
+            gradn = grad + w_new * x
+            return f0 + 0.5 * w_new * float(x @ x), f0_old, gradn, Gn
+        if kind == "break":
+            # arbitrary rewrite that breaks curvature for a subset of pairs
+            Gn = deque([(-g if (i % 2 == 0) else g) for i, g in enumerate(G)])
+            return f0, f0_old, grad, Gn
+        raise ValueError(kind)
+    return upd
+
+
+def scenario(seed: int, features: Optional[Dict[str, Any]] = None, families=None,
+             small_budgets=None, n=None, box=None) -> Tuple[Dict[str, Any], Dict[str, Any], Problem]:
+    """kwargs for minimize_lbfgsb + a JSON-able description. `features` forces options;
+    otherwise they are drawn from the seed."""
+    r = random.Random(seed * 104729 + 7)
+    feat = dict(features or {})
+    p = make_problem(seed, families=families, n=n, box=box)
+    sb = (r.random() < 0.35) if small_budgets is None else small_budgets
+    cfg = make_config(seed, small_budgets=sb)
+    kw: Dict[str, Any] = dict(x0=p.x0.copy(), fun=p.fun, jac=p.grad, bounds=p.bounds, **cfg)
+    mode = feat.get("jac", "callable")
+    if mode != "callable":
+        kw["jac"] = None if mode == "none" else mode
+    cb = feat.get("callback", r.choice(["none", "none", "false", "stop"]))
+    if cb == "false":
+        kw["callback"] = lambda xk, st: False
+    elif cb == "stop":
+        k = feat.get("cb_stop_at", r.randint(1, 6))
+        kw["callback"] = lambda xk, st, k=k: st.nit >= k
+    ft = feat.get("ftarget", r.choice(["none", "none", "float", "callable"]))
+    if ft != "none":
+        # a target between f(x0) and a rough lower value so that it sometimes fires
+        f0 = p.fun(np.clip(p.x0, p.lb, p.ub))
+        tv = f0 - abs(f0) * r.choice([0.0, 0.1, 0.5, 2.0]) - r.choice([0.0, 1.0])
+        kw["ftarget"] = tv if ft == "float" else (lambda tv=tv: tv)
+    if feat.get("gtol_callable", r.random() < 0.2):
+        gv = kw["gtol"]
+        kw["gtol"] = lambda gv=gv: gv
+    sc = feat.get("scaler", "none")
+    if sc == "const":
+        s = feat.get("s", 10 ** r.uniform(-3, 3))
+        kw["gradient_scaler"] = lambda x, g, lb, ub, s=s: s
+    elif sc == "packaged":
+        from lbfgsb.utils import get_gradient_projection_unit_scaling
+        kw["gradient_scaler"] = get_gradient_projection_unit_scaling
+    up = feat.get("update", "none")
+    if up != "none":
+        kw["update_fun_def"] = make_update(up, seed, feat.get("switch_at", r.randint(0, 5)))
+    desc = {"seed": seed, "problem": p.desc, "cfg": cfg,
+            "features": {"jac": mode, "callback": cb, "ftarget": ft, "scaler": sc, "update": up,
+                         **{k: v for k, v in feat.items() if isinstance(v, (int, float, str))}}}
+    return kw, desc, p
